@@ -51,6 +51,7 @@ type world struct {
 	recvGot  []quartz.ScheduledJob
 	recvDone chan struct{}
 	apiFaults bool               // random API sequences: queue faults (Push / Remove) inside API calls
+	written  []*quartz.JobDetail // NewJobDetail-built details whose Options() the harness wrote after construction
 	details  []*quartz.JobDetail // every JobDetail object handed to a ScheduleJob call with a usable key, oldest first
 }
 
@@ -186,6 +187,11 @@ func newWorldOpt(variant string, misCap int, wo wopt) *world {
 }
 
 func (w *world) close() {
+	defer func() { // after the schedulers are stopped the caller takes back what it wrote (sequences stay independent of each other)
+		for _, jd := range w.written {
+			jd.Options().Replace, jd.Options().Suspended, jd.Options().MaxRetries = false, false, 0
+		}
+	}()
 	if w.recv {
 		select {
 		case w.misfired <- nil: // ends the listener
@@ -279,6 +285,30 @@ func (w *world) opSchedule(name, group string, repl, susp bool, t *rtrig, jdNil 
 				tr = t
 			}
 			return errClassW(w, s.ScheduleJob(jd, tr))
+		}}
+}
+
+// opScheduleNJD: ScheduleJob of a detail built by quartz.NewJobDetail (default options, no options argument). write names what the
+// caller writes through Options() AFTER construction: "" nothing, "repl" Replace = true, "susp" Suspended = true, "retr" MaxRetries = 3.
+// The command carries what the caller asked of THIS detail: every other NewJobDetail-built detail has the default options.
+func (w *world) opScheduleNJD(name, group string, t *rtrig, write string) op {
+	return op{kind: 'A', text: fmt.Sprintf("S %s %s %s %s %d", name, group, b01(write == "repl"), b01(write == "susp"), t.id),
+		note: "detail-built-by=NewJobDetail" + map[bool]string{true: ",then-Options()." + write + "-written-by-the-caller", false: ""}[write != ""],
+		run: func(s quartz.Scheduler) string {
+			jd := quartz.NewJobDetail(noJob, mkKey(name, group))
+			switch write {
+			case "repl":
+				jd.Options().Replace = true
+			case "susp":
+				jd.Options().Suspended = true
+			case "retr":
+				jd.Options().MaxRetries = 3
+			}
+			if write != "" {
+				w.written = append(w.written, jd)
+			}
+			w.details = append(w.details, jd)
+			return errClassW(w, s.ScheduleJob(jd, t))
 		}}
 }
 
@@ -609,6 +639,25 @@ func alphabet(size string) []protoOp {
 		trigs = []string{"si", "rx"}
 		opts = opts[:3]
 	}
+	if size == "njd" {
+		// details built by NewJobDetail; on some the caller writes Replace / Suspended / MaxRetries through Options() afterwards; then
+		// OTHER NewJobDetail-built details (default options) are scheduled under registered keys
+		for _, k := range [][2]string{{"a", "default"}, {"a", "g"}} {
+			for _, wr := range []string{"", "repl", "susp", "retr"} {
+				k, wr := k, wr
+				if k[1] == "g" && (wr == "retr" || wr == "repl") {
+					continue
+				}
+				out = append(out, protoOp{func(w *world) op { return w.opScheduleNJD(k[0], k[1], trigMaker("si")(w), wr) }})
+			}
+		}
+		for _, c := range []byte{'D', 'P', 'R'} {
+			c := c
+			out = append(out, protoOp{func(w *world) op { return w.opKey(c, "a", "default") }})
+		}
+		out = append(out, protoOp{func(w *world) op { return w.opClear() }})
+		return out
+	}
 	if size == "reuse" {
 		// one key in full: fresh details (plain / Replace / Suspended), the OLDEST and the NEWEST earlier *JobDetail object of the key
 		// handed to ScheduleJob again (with a new trigger), delete / pause / resume; a second key to move other entries; clear
@@ -866,7 +915,9 @@ func (w *world) randomOp(r *rand.Rand, withFetch bool, base int64) op {
 			o = w.opSchedule("-empty-", group, false, false, t, false)
 		default:
 			o = w.opSchedule(name, group, r.Intn(3) == 0, r.Intn(4) == 0, t, false)
-			if t != nil && len(w.details) > 0 && r.Intn(5) == 0 { // an earlier *JobDetail object again: of this key, or any
+			if t != nil && r.Intn(6) == 0 { // a detail built by NewJobDetail, sometimes written through Options() afterwards
+				o = w.opScheduleNJD(name, group, t, []string{"", "", "repl", "susp", "retr"}[r.Intn(5)])
+			} else if t != nil && len(w.details) > 0 && r.Intn(5) == 0 { // an earlier *JobDetail object again: of this key, or any
 				jd := w.pickDetail(name, group, r.Intn(2) == 0, 0)
 				if jd == nil || r.Intn(3) == 0 {
 					jd = w.pickDetail("", "", false, r.Intn(1<<20))
@@ -1326,6 +1377,8 @@ func cmdSteps(args []string) {
 		runExhaustive(e, st, "collide", 3, quiet, only)
 		runExhaustive(e, st, "reuse", 4, quiet, only)
 		runExhaustive(e, st, "reuse", 3, []string{"sd", "sh", "sc"}, only)
+		runExhaustive(e, st, "njd", 4, quiet, only)
+		runExhaustive(e, st, "njd", 3, []string{"sd", "sh", "sc"}, only)
 		runExhaustive(e, st, "extreme", 3, quiet, only)
 		runExhaustive(e, st, "extreme-started", 2, []string{"sd", "sh", "sc"}, only)
 		runExhaustive(e, st, "full", 2, all, only)
@@ -1337,6 +1390,8 @@ func cmdSteps(args []string) {
 		runExhaustive(e, st, "small", 4, []string{"sd", "sh", "sc", "tc", "th"}, only)
 		runExhaustive(e, st, "collide", 4, quiet, only)
 		runExhaustive(e, st, "reuse", 5, []string{"nd", "nc", "nh"}, only)
+		runExhaustive(e, st, "njd", 5, []string{"nd", "nc", "nh"}, only)
+		runExhaustive(e, st, "njd", 4, []string{"sd", "sh", "sc", "td"}, only)
 		runExhaustive(e, st, "reuse", 4, []string{"sd", "sh", "sc", "td"}, only)
 		runExhaustive(e, st, "extreme", 3, []string{"nd", "nc", "nh", "td", "tc", "th"}, only)
 		runExhaustive(e, st, "extreme-started", 3, []string{"sd", "sh", "sc"}, only)
